@@ -163,6 +163,25 @@ def scale_spec(spec, L, K):
             'sides': {s: {'kind': v['kind'], 'a': v['a'] * L, 'b': v['b'].copy(), 'c': v['c'] * K} for s, v in spec['sides'].items()}}       # plain arrays: no 'util'
 
 
+def vary_terms(rng, terms, p=0.35):
+    """the same equation terms in other containers: sparse matrices of another format (csc / coo / lil; solvePDE accepts any 2-D
+    term), in the matrix part of (matrix, vector) tuples as well. Returns a new list; the originals are not modified."""
+    import scipy.sparse as sp_
+    out = []
+    for t in terms:
+        if rng.random() >= p:
+            out.append(t)
+            continue
+        fmt = str(rng.choice(['csc', 'csc', 'coo', 'lil']))
+        if isinstance(t, tuple) and len(t) == 2 and getattr(t[0], 'ndim', None) == 2:
+            out.append((getattr(sp_.csr_array(t[0]), 'to' + fmt)(), t[1]))
+        elif getattr(t, 'ndim', None) == 2 and sp_.issparse(t):
+            out.append(getattr(sp_.csr_array(t), 'to' + fmt)())
+        else:
+            out.append(t)
+    return out
+
+
 def equilibrated_cond(M):
     """1-norm condition number after scaling every row to unit maximum (a unit system makes boundary rows O(1) and interior rows
     O(1/T): the plain condition number then measures the units, not the problem)"""
